@@ -444,9 +444,9 @@ class MProcess(QOperation):
     ) -> np.ndarray:
         dim = c_sys.dim
 
-        # var to hss
-        hss = convert_var_to_hss(
-            c_sys, var, on_para_eq_constraint=on_para_eq_constraint
+        # var to hss (copied: convert_var_to_hss returns views of var when on_para_eq_constraint is False)
+        hss = copy.deepcopy(
+            convert_var_to_hss(c_sys, var, on_para_eq_constraint=on_para_eq_constraint)
         )
 
         # calc new var
